@@ -15,7 +15,7 @@ def run(ctx):
     except RoleLost as e:
         return ctx.note("C07-d: restated clauses skipped — %s; the owning rules report it" % e)
     restated_clause(ctx, "C07-d", tb.path, "generalized-dod", lambda: gdod_clause(ctx, "C07-d", tb))
-    restated_clause(ctx, "C07-d", fg.path, "graph-dod", lambda: graph_dod_clause(ctx, "C07-d"))
+    restated_clause(ctx, "C07-d", fg.path, "graph-dod", lambda: graph_dod_clause(ctx, "C07-d", topology=True))
     run_c03_loops(ctx, "C07-d", soft=True)
     # which subsets count as mass-momentum spanning decides where ω loses the −ω(G) term and where V_tr is picked up
     from .kernels import run_c03_flags
